@@ -8,7 +8,7 @@ From Verif Require Import Base.PyInt C14S.PyList C14S.StackSpec.
 Import ListNotations.
 Open Scope Z_scope.
 
-Inductive ainstr := APush (v : Z) | AMstore | AMload | ASwap (n : Z) | ADup (n : Z) | APop.
+Inductive ainstr := APush (v : Z) | AMstore | AMload | ASwap (n : Z) | ADup (n : Z) | APop | APushLabel (x : Z).
 
 Record sp := mkSp { sp_free : list Z; sp_next : Z; sp_peak : Z }.
 Definition spilled := list (Z * Z).          (* operand -> offset, insertion order *)
@@ -262,6 +262,76 @@ Definition stack_reorder (equiv : Z -> Z -> bool) (dry : bool) (stack_ops : list
     end
   end.
 
+(* ---- VenomCompiler._emit_input_operands (literal operands are ids = their value; id mod 4 = 2 marks a label) ---- *)
+Definition is_label (x : Z) : bool := x mod 4 =? 2.
+Definition is_lit (x : Z) : bool := x mod 4 =? 0.
+Fixpoint emit_inputs_r (invoke : bool) (ops live seen : list Z) (a : list ainstr) (m : list Z) (s : sp) (d : spilled)
+  : res (list ainstr * list Z * sp * spilled) :=
+  match ops with
+  | [] => Ok (a, m, s, d)
+  | op :: r =>
+    (* restore a spilled variable first *)
+    match (if is_var op then match sp_lookup d op with
+                             | Some _ => restore_spilled false op a m s d
+                             | None => Ok (a, m, s, d) end
+           else Ok (a, m, s, d)) with
+    | Err e => Err e
+    | Ok (a1, m1, s1, d1) =>
+      if is_label op then emit_inputs_r invoke r live seen (if invoke then a1 else a1 ++ [APushLabel op]) (st_push m1 op) s1 d1
+      else if is_lit op then emit_inputs_r invoke r live seen (a1 ++ [APush op]) (st_push m1 op) s1 d1
+      else
+        match (if py_in op live then
+                 match spec_get_depth m1 op with
+                 | None => Err AssertFail
+                 | Some dp => match sp_dup false dp a1 m1 s1 with Ok (a2, m2, s2, _) => Ok (a2, m2, s2) | Err e => Err e end
+                 end
+               else Ok (a1, m1, s1)) with
+        | Err e => Err e
+        | Ok (a2, m2, s2) => if py_in op seen then Err AssertFail else emit_inputs_r invoke r live (op :: seen) a2 m2 s2 d1
+        end
+    end
+  end.
+Definition emit_inputs (invoke : bool) (ops live : list Z) := emit_inputs_r invoke ops live [].
+
+(* ---- VenomCompiler.popmany ---- *)
+Fixpoint depths_of (m : list Z) (xs : list Z) : list Z :=
+  match xs with [] => [] | x :: r => match spec_get_depth m x with Some dp => dp :: depths_of m r | None => depths_of m r end end.
+Fixpoint insert_z (k : Z) (l : list Z) : list Z :=
+  match l with [] => [k] | y :: r => if k <? y then k :: l else y :: insert_z k r end.
+Definition sort_z (l : list Z) : list Z := fold_left (fun acc k => insert_z k acc) l [].
+Fixpoint pop_each (xs : list Z) (a : list ainstr) (m : list Z) (s : sp) : res (list ainstr * list Z * sp) :=
+  match xs with
+  | [] => Ok (a, m, s)
+  | x :: r => match spec_get_depth m x with
+              | None => Err TypeErr
+              | Some dp =>
+                match (if dp =? 0 then Ok (a, m, s, 0) else sp_swap false dp a m s) with
+                | Err e => Err e
+                | Ok (a1, m1, s1, _) => if zlen m1 <=? 0 then Err BadIndex else pop_each r (a1 ++ [APop]) (st_pop m1 1) s1
+                end
+              end
+  end.
+Definition popmany (to_pop : list Z) (a : list ainstr) (m : list Z) (s : sp) : res (list ainstr * list Z * sp) :=
+  let present := filter (fun x => negb (opt_is_none (spec_get_depth m x))) to_pop in
+  match present with
+  | [] => Ok (a, m, s)
+  | _ =>
+    let depths := depths_of m present in
+    let deepest := fold_left Z.min depths 0 in
+    let expected := map (fun i => deepest + Z.of_nat i) (seq 0 (Z.to_nat (- deepest))) in
+    if (deepest <? 0) && (- deepest <=? 16) && (if list_eq_dec Z.eq_dec (sort_z depths) expected then true else false) then
+      match sp_swap false deepest a m s with
+      | Err e => Err e
+      | Ok (a1, m1, s1, _) =>
+        let n := zlen present in
+        Ok (a1 ++ repeat APop (Z.to_nat n), st_pop m1 n, s1)
+      end
+    else
+      (* to_pop.sort(key=-depth): shallowest first, stable *)
+      let keyed := fold_left (fun acc x => match spec_get_depth m x with Some dp => insert_by (- dp) x acc | None => acc end) present [] in
+      pop_each (map snd keyed) a m s
+  end.
+
 (* ---- machine semantics of the emitted assembly: EVM stack (top first) + word memory keyed by offset ---- *)
 Definition mem := Z -> Z.
 Definition mset (mm : mem) (o v : Z) : mem := fun x => if x =? o then v else mm x.
@@ -274,6 +344,7 @@ Definition step (i : ainstr) (sm : list Z * mem) : option (list Z * mem) :=
   | ASwap n => match evm_swap n s with Some s' => Some (s', mm) | None => None end
   | ADup n => match evm_dup n s with Some s' => Some (s', mm) | None => None end
   | APop => match s with _ :: r => Some (r, mm) | [] => None end
+  | APushLabel x => Some (x :: s, mm)
   end.
 Fixpoint run (l : list ainstr) (sm : list Z * mem) : option (list Z * mem) :=
   match l with [] => Some sm | i :: r => match step i sm with Some sm' => run r sm' | None => None end end.
@@ -283,6 +354,6 @@ Definition depth_ok (i : ainstr) : bool :=
 
 (* printing helper for the harness: encode instructions as numbers *)
 Definition enc_instr (i : ainstr) : list Z :=
-  match i with APush v => [1; v] | AMstore => [2] | AMload => [3] | ASwap n => [4; n] | ADup n => [5; n] | APop => [6] end.
+  match i with APush v => [1; v] | AMstore => [2] | AMload => [3] | ASwap n => [4; n] | ADup n => [5; n] | APop => [6] | APushLabel x => [7; x] end.
 Definition err_code (e : err) : Z :=
   match e with AssertFail => 1 | BadIndex => 2 | KeyErr => 3 | TypeErr => 4 | OutOfFuel => 5 | _ => 9 end.
